@@ -232,7 +232,7 @@ func StateKey(x *apix.Exec) string {
 	if x.DB != nil {
 		if f := bolt.VerifFreelist(x.DB); f != nil {
 			d := fl.VerifDump(f)
-			fmt.Fprintf(h, "|F%v|A", d.Free)
+			fmt.Fprintf(h, "|F%v|raw%s|A", d.Free, d.Raw)
 			var tids []uint64
 			for t := range d.Pending {
 				tids = append(tids, uint64(t))
